@@ -21,7 +21,7 @@ DEFAULT_FAULTS = dict(
     pause=0.0, resume_early=0.0, cancel=0.0, bad_request=0.0, restart=0.0, dup=0.0, poll_skip=0.0,
     poll_twice=0.0, rerun=0.0, eval_fault=0.0, act_canceled=0.5, act_canceling=0.4, act_timeout=0.2, act_abandoned=0.1,
     slow_branch=0.3, suffix_requests=0.0, pending=0.0, mark_running=0.3, act_cancel_solo=0.0, early_pause=0.0,
-    early_cancel=0.0, cancel_while_pausing=0.0,
+    early_cancel=0.0, cancel_while_pausing=0.0, cancel_at_retry=0.0, pause_at_retry=0.0,
 )
 
 
@@ -451,6 +451,15 @@ class Scheduler(object):
                 self.stats["fault_reorder"] = self.stats.get("fault_reorder", 0) + 1
             self.order_done.append(aid)
             self.do(["deliver", aid, status, result])
+            rec = w.record(a["task"], a["route"]) if w.c is not None and w.snap else None
+            if rec is not None and rec.get("status") == "retrying" and not w.cancel_req and w.status not in TERMINAL_WF:
+                # the window between the decision to retry and the start of the next attempt
+                if self.coin("cancel_at_retry", aid):
+                    self.stats["fault_cancel_at_retry"] = self.stats.get("fault_cancel_at_retry", 0) + 1
+                    self.do(["request", self.K.choice(["canceling", "canceled"], "fault", "crkind", aid)])
+                elif not w.pause_req and self.coin("pause_at_retry", aid):
+                    self.stats["fault_pause_at_retry"] = self.stats.get("fault_pause_at_retry", 0) + 1
+                    self.do(["request", self.K.choice(["pausing", "paused"], "fault", "prkind", aid)])
             if self.coin("dup", aid):
                 self.heap.push(self.heap.now + self.K.u("fault", "dupdelay", aid) * 5, ("dup", aid))
             self.after_handler()
